@@ -62,22 +62,24 @@ theorem sideInfo_cases (h : Hdr) : h.sideInfo = 32 ∨ h.sideInfo = 17 ∨ h.sid
   unfold Hdr.sideInfo sideInfoSize
   cases decide (h.version = 3) <;> cases decide (h.mode = 3) <;> simp
 
-theorem parse_vbri (s : VbriStream) (ok : s.OK) : parse s.build = .ok s.expected := by
+theorem parse_vbri_at (pre : Bytes) (s : VbriStream) (ok : s.OK) :
+    parseFrom (pre ++ s.build) pre.length = .ok { s.expected with frameOffset := pre.length + s.lead.render.length } := by
   obtain ⟨hlead, hok, hl3, hside, htag, hnx⟩ := ok
-  obtain ⟨rest, hscan⟩ := lead_scan s.lead hlead s.hdr (s.side ++ (s.tag.render ++ s.after))
+  obtain ⟨rest, hscan⟩ := lead_scan_at pre s.lead hlead s.hdr (s.side ++ (s.tag.render ++ s.after))
   have hb : s.build = s.lead.render ++ (s.hdr.bytes ++ (s.side ++ (s.tag.render ++ s.after))) := rfl
   rw [← hb] at hscan
-  generalize ho : s.lead.render.length = o at *
-  have d0 : s.build.drop o = s.hdr.bytes ++ (s.side ++ (s.tag.render ++ s.after)) := by rw [← ho]; exact drop_at _ _
-  have dq : s.build.drop (o + 36) = s.tag.render ++ s.after := by
+  generalize ho : pre.length + s.lead.render.length = o at *
+  have d0 : (pre ++ s.build).drop o = s.hdr.bytes ++ (s.side ++ (s.tag.render ++ s.after)) := by rw [← ho]; exact drop_at2 _ _ _
+  generalize hF : pre ++ s.build = F at *
+  have dq : F.drop (o + 36) = s.tag.render ++ s.after := by
     rw [← List.drop_drop, d0, ← List.append_assoc]
     exact List.drop_left' (by simp [length_hdr, hside])
-  have hv := parseVbri_build s.build (o + 36) s.tag htag s.after dq
+  have hv := parseVbri_build F (o + 36) s.tag htag s.after dq
   have hfs := frameSize_infoOf s.hdr hok
   have hlay : (infoOf s.hdr).layer = 3 := hl3
   have hxo := xing_offset s.hdr hok
   -- no Xing tag
-  have hnox : parseXing s.build (o + (4 + s.hdr.sideInfo)) = none := by
+  have hnox : parseXing F (o + (4 + s.hdr.sideInfo)) = none := by
     apply xing_none
     rw [← readAt_drop, d0]
     rcases sideInfo_cases s.hdr with h32 | h17 | h9
@@ -97,24 +99,30 @@ theorem parse_vbri (s : VbriStream) (ok : s.OK) : parse s.build = .ok s.expected
         unfold readAt
         rw [List.drop_append_of_le_length (by simp [length_hdr, hside]), List.take_append_of_le_length (by simp [length_hdr, hside])]
       rw [this]; exact hnx
-  have hm : mpegFrame s.build o = .ok (some (vbrHeader s.build { offset := o, h := infoOf s.hdr, bitrate := .int (infoOf s.hdr).bitrate },
+  have hm : mpegFrame F o = .ok (some (vbrHeader F { offset := o, h := infoOf s.hdr, bitrate := .int (infoOf s.hdr).bitrate },
       o + (infoOf s.hdr).frameLength)) := by
     unfold mpegFrame
     rw [d0, decode_hdr s.hdr hok]
     simp only [hlay, ↓reduceIte]
-  have hvb : vbrHeader s.build { offset := o, h := infoOf s.hdr, bitrate := .int (infoOf s.hdr).bitrate } =
+  have hvb : vbrHeader F { offset := o, h := infoOf s.hdr, bitrate := .int (infoOf s.hdr).bitrate } =
       { offset := o, h := infoOf s.hdr, sketchy := false, bitrateMode := some 2, encoderInfo := some (asciiB "FhG"),
         length := some (.div (.flt (.nat (s.hdr.samples * s.tag.frames))) (.nat (infoOf s.hdr).sampleRate)),
         bitrate := if s.hdr.samples * s.tag.frames ≠ 0 then
             .trunc (.div (.nat (s.tag.bytes * 8)) (.div (.flt (.nat (s.hdr.samples * s.tag.frames))) (.nat (infoOf s.hdr).sampleRate)))
           else .int (infoOf s.hdr).bitrate } := by
     simp only [vbrHeader, hxo, hnox, Generated.vbriOffset, hv, hfs]
-  have hsk : (vbrHeader s.build { offset := o, h := infoOf s.hdr, bitrate := .int (infoOf s.hdr).bitrate }).sketchy = false := by
+  have hsk : (vbrHeader F { offset := o, h := infoOf s.hdr, bitrate := .int (infoOf s.hdr).bitrate }).sketchy = false := by
     rw [hvb]
-  have htf := takeFrames_first s.build o _ _ hm hsk
-  have hsl := syncLoop_first s.build o rest _ htf hsk
-  unfold parse parseFrom
+  have htf := takeFrames_first F o _ _ hm hsk
+  have hsl := syncLoop_first F o rest _ htf hsk
+  unfold parseFrom
   simp only [hscan, hsl, hvb]
-  simp only [VbriStream.expected, headerInfo, infoOf, ho, Option.getD]
+  simp only [VbriStream.expected, headerInfo, infoOf, Option.getD]
+
+theorem parse_vbri (s : VbriStream) (ok : s.OK) : parse s.build = .ok s.expected := by
+  have h := parse_vbri_at [] s ok
+  simp only [List.nil_append, List.length_nil, Nat.zero_add] at h
+  rw [show parse s.build = parseFrom s.build 0 from rfl, h]
+  rfl
 
 end Mutagen.Info.Mp3
